@@ -251,6 +251,8 @@ def run(ctx, res, want=('C05',)):
             res.count('model:worker-ending:' + e)
             if o.strip() != real:
                 res.diff('Worker.answer vs pl.worker.cluster.execute', {'ending': e}, o.strip(), real)
+    if 'C05' in want:
+        hand_correspondence(ctx, res)
     if thorough:
         import os
         exhaustive(ctx, res, depth=int(os.environ.get('VERIF_C05_DEPTH', '5')) - (0 if 'C05' in want else 1), want=want)
@@ -258,11 +260,75 @@ def run(ctx, res, want=('C05',)):
                            'context overrides, logging hand-over and db.reopen/close of the worker are stubbed')
 
 
+WIRE = [('yes', True), ('no', False), ('none', None), ('yes', 1), ('no', 0), ('yes', 'x'), ('no', ''),
+        ('yes', [0]), ('no', [])]
+
+
+def hand_calls(suc, known=True):
+    """the REAL farm.Hand._res on an answer with `success=suc`: the state it books and the scheduler calls
+    it makes, in order (schedule.find/complete/update/purge replaced by recorders)"""
+    import dawgie.pl.farm
+    import dawgie.pl.message
+    import dawgie.pl.schedule as S
+    logging.disable(logging.CRITICAL)
+    calls, state = [], []
+    orig = {n: getattr(S, n) for n in ('find', 'complete', 'update', 'purge')}
+    arch = dawgie.pl.farm.ARCHIVE
+
+    def find(jobid):
+        if not known:
+            raise IndexError(jobid)
+        return ('job', jobid)
+    S.find = find
+    S.complete = lambda job, runid, inc, timing, st: (calls.append('complete'), state.append(st.name))
+    S.update = lambda values, job, runid: calls.append('update')
+    S.purge = lambda job, inc: calls.append('purge')
+    try:
+        m = dawgie.pl.message.make(typ=dawgie.pl.message.Type.response, jid='a.b', inc='T', rid=3, suc=suc,
+                                   tim={}, val=[True])
+        dawgie.pl.farm.Hand._res(m)  # pylint: disable=protected-access
+    finally:
+        for n, f in orig.items():
+            setattr(S, n, f)
+        dawgie.pl.farm.ARCHIVE = arch
+    return (state[0] if state else '-'), calls
+
+
+def hand_correspondence(ctx, res):
+    """the regenerated tables of farm.Hand._translate/_res (Model/Hand + Generated/HandGen) against the real
+    functions, for every kind of wire value; plus: an answer for a job the scheduler does not know books nothing"""
+    real = [(k, repr(v), hand_calls(v)) for k, v in WIRE]
+    for k, v, (st, calls) in real:
+        if 'complete' not in calls[:1]:
+            res.hit('C05:e2e-outcome-not-recorded', f'farm.Hand._res(success={v}) makes the scheduler calls {calls}: '
+                    'the outcome is not booked first', {'kind': 'hand', 'success': v})
+        if k != 'yes' and ('purge' not in calls or 'update' in calls):
+            res.hit('C05:e2e-not-withdrawn', f'farm.Hand._res(success={v}) makes the scheduler calls {calls} with '
+                    f'state {st}: a run that did not succeed must purge its dependents and must not trigger them',
+                    {'kind': 'hand', 'success': v})
+    st, calls = hand_calls(True, known=False)
+    res.count('hand:unknown-job')
+    if calls:
+        res.diff('Hand.res (job unknown to schedule.find) vs farm.Hand._res', {'known': False}, [], calls)
+    if ctx.get('lean'):
+        outs = common.driver([common.sx(['hand', k]) for k, _v, _r in real], 'Sched')
+        for (k, v, (st, calls)), o in zip(real, outs):
+            res.traces += 1
+            res.count('model:hand-wire:' + k)
+            m = common.parse_sx(o)
+            got = [st, calls]
+            if m != got:
+                res.diff('Hand.translate/acts vs farm.Hand._translate/_res', {'success': v}, m, got)
+
+
 def replay(inp, res, want=('C05',)):
     from .c08_store import Store
     store = Store()
     store.install_loopback()
     inp = inp.get('input', inp)
+    if inp.get('kind') == 'hand':
+        hand_correspondence({'lean': False}, res)
+        return
     hits, _stats = run_scenario(store, c02_e2e._norm(inp['scenario']), inp.get('seed', 0), res, want=want)  # pylint: disable=protected-access
     for sig, what in hits:
         res.hit(sig, what, inp)
